@@ -76,7 +76,7 @@ Proof.
   eapply safe_bind; [|intros l _; exact I].
   apply safe_map_o. intros n. unfold xls_final_name.
   pose proof (no_panic_parse_formula_xls show_f64
-                {| xe_sheets := map quote_sheet_name sheets; xe_names := map fst (fst g); xe_xtis := snd g |}
+                {| xe_sheets := map quote_sheet_name sheets; xe_names := map fst (fst g); xe_xtis := snd g; xe_base := None |}
                 (frame_xls (snd (snd n)))) as Hp.
   destruct (xls_parse_formula show_f64 _ _); cbn [safe]; auto.
 Qed.
